@@ -464,6 +464,34 @@ def callsite_part():
         for fp, text in c14.new_judge(params, k, o):
             if "pidfile" in fp:
                 viols.setdefault("callsite:promotion:" + fp, violation("callsite:promotion:" + fp, "new master, history %r: %s" % (script, text), {"callsite": "promotion"}))
+    # halt: the pid file goes when the master has finished stopping, not while it still waits for its workers
+    from props import c04
+    from vlib import simkernel as sk
+    for term in ("now", "late", "never"):
+        for sig in ("TERM", "QUIT", "INT"):
+            for pre in ([], [("sig", "HUP")], [("sig", "TTIN")]):
+                params = {"workers": 2, "timeout": 30, "term": term, "bind": "tcp"}
+                k = sk.Kernel(script=list(pre) + [("sig", sig)], term=term, settle=2, late_delay=1.5)
+                k.fs.dirs.add("/run")
+                seen = []
+                orig = k.fs._call
+
+                def spy(name, *a, k=k, seen=seen, orig=orig):
+                    stopping = any(t[0] == "log" and t[2].startswith("Handling signal: ") and t[2].split(": ")[1] in ("term", "int", "quit")
+                                   for t in k.trace)
+                    if stopping and name in ("unlink", "rename") and a and a[0] == c04.PIDFILE:
+                        seen.append((name, k.now, [p.pid for p in k.children() if p.alive and p.kind == "worker"]))
+                    return orig(name, *a)
+                k.fs._call = spy
+                o = sk.run_arbiter(c04.sim_cfgs(params), k)
+                n += 1
+                if o.end != "exit":
+                    continue
+                for name, now, alive in seen:
+                    if alive:
+                        fp = "callsite:halt:pidfile-removed-while-workers-alive"
+                        viols.setdefault(fp, violation(fp, "history %r, workers exit %s: the master %s its pid file at t=%.2f while its workers %r were still alive "
+                                                       "(it went on waiting for them)" % (list(pre) + [("sig", sig)], term, name + "ed", now, alive), {"callsite": "halt"}))
     return list(viols.values()), n
 
 
